@@ -6,6 +6,7 @@ Require Import ITree.Model.Common ITree.Model.RBTree ITree.Model.Pool ITree.Mode
 Require Import ITree.Spec.MapSpec ITree.Proofs.MapProofs ITree.Proofs.MapTheorems
   ITree.Proofs.KeyListProofs ITree.Proofs.KeyProofs ITree.Proofs.KeyRefine ITree.Proofs.KeyTheorems.
 Require ITree.Model.SegModel ITree.Proofs.SegProofs ITree.Proofs.SegExtras.
+Require ITree.Model.ArenaModel ITree.Model.ArenaQuery ITree.Proofs.ArenaProofs ITree.Proofs.ArenaQueryProofs.
 
 (* map / set tree: from any reachable state, after clear every valid history runs to completion with
    exactly the outputs it has on a new tree (whatever the capacity hints) *)
@@ -35,3 +36,20 @@ Theorem C12_seg : forall (lo hi: Z) (s0: SegModel.seg) (h: list SegModel.sop) (s
   SegModel.seg_new lo hi = Some s0 -> ITree.Proofs.SegProofs.seg_valid (SegModel.lay s0) h ->
   SegModel.seg_run s0 h = Ret (s, outs) -> SegModel.seg_clear s = s0.
 Proof. exact ITree.Proofs.SegExtras.seg_clear_is_new. Qed.
+
+(* clear as the code performs it, on the arena (Model/ArenaQuery.v: the level-by-level walk that uses
+   the free list itself as its queue): it ends within height-many rounds, leaves the root empty and
+   the free list EXACTLY the one of the tree-level model (same order), without writing any node *)
+Theorem C12_arena_clear_map : forall (a: ArenaModel.astate ment) (s: mstate) (fuel: nat),
+  ArenaProofs.Rep a ArenaModel.EMPTY (ArenaModel.aroot a) (root s) -> (height ment (root s) < fuel)%nat ->
+  exists a', ArenaQuery.arena_clear fuel (a, pl s) = Ret (a', pl (m_clear s)) /\
+             ArenaProofs.Rep a' ArenaModel.EMPTY (ArenaModel.aroot a') (root (m_clear s)) /\
+             (forall j, ArenaModel.nodes a' j = ArenaModel.nodes a j).
+Proof. intros a s fuel HR Hf. exact (ArenaQueryProofs.arena_map_clear a s HR fuel Hf). Qed.
+
+Theorem C12_arena_clear_key : forall (a: ArenaModel.astate kent) (s: kstate) (fuel: nat),
+  ArenaProofs.Rep a ArenaModel.EMPTY (ArenaModel.aroot a) (kroot s) -> (height kent (kroot s) < fuel)%nat ->
+  exists a', ArenaQuery.arena_clear fuel (a, kpl s) = Ret (a', kpl (k_clear s)) /\
+             ArenaProofs.Rep a' ArenaModel.EMPTY (ArenaModel.aroot a') (kroot (k_clear s)) /\
+             (forall j, ArenaModel.nodes a' j = ArenaModel.nodes a j).
+Proof. exact ArenaQueryProofs.arena_k_clear. Qed.
